@@ -31,6 +31,7 @@ StepAction(e) ==
   \/ e.a = "Rm"         /\ Rm /\ Obs(e)
   \/ e.a = "Clear"      /\ Clear /\ Obs(e)
   \/ e.a = "Fail"       /\ OpFails /\ Obs(e)
+  \/ e.a = "Denied"     /\ Denied /\ Obs(e)
   \/ e.a = "Crash"      /\ Crash(e.lose) /\ Obs(e)
   \/ e.a = "StartUp"    /\ StartUp /\ Clause("loaded", e.loaded = cur') /\ Clause("raised", ~e.raised) /\ Obs(e)
   \/ e.a = "StartSchedule" /\ StartSchedule /\ Obs(e)
